@@ -1,6 +1,7 @@
 package verifsim
 
 import (
+	"time"
 	"context"
 	"fmt"
 	"regexp"
@@ -53,7 +54,7 @@ var c07Fields = []c07Field{
 		[]string{`0.0`, `0.5`, `-1.25`, `2.5`, `100.0`, `null`}},
 	{"active", "bool", []string{`true`, `false`, `null`}, []string{`true`, `false`, `null`}},
 	{"born", "time", []string{`"2020-01-01T00:00:00Z"`, `"1969-12-31T23:59:59.999999999Z"`, `"2020-01-01T00:00:00.000000001Z"`, `"2038-01-19T03:14:08Z"`, `null`},
-		[]string{`"2020-01-01T00:00:00Z"`, `"1969-12-31T23:59:59.999999999Z"`, `"2020-01-01T00:00:00.000000001Z"`, `"2038-01-19T03:14:08Z"`, `null`}},
+		[]string{`"2020-01-01T00:00:00Z"`, `"1969-12-31T23:59:59.999999999Z"`, `"2020-01-01T00:00:00.000000001Z"`, `"2038-01-19T03:14:08Z"`, `null`, `"2020-01-01T01:00:00+01:00"`}},
 	{"tags", "strarr", []string{`[]`, `["x"]`, `["x", "y"]`, `["y", "", "x"]`, `null`}, []string{`[]`, `["x"]`, `["x", "y"]`, `["y", "", "x"]`, `null`}},
 	{"nums", "intarr", []string{`[]`, `[1]`, `[1, 2, 3]`, `[-1, 0]`, `[3, 3]`, `null`}, []string{`[]`, `[1]`, `[1, 2, 3]`, `[-1, 0]`, `[3, 3]`, `null`}},
 	{"meta", "json", []string{`{"a": 1}`, `{"a": 2, "b": "x"}`, `{"a": {"c": true}}`, `[1, 2]`, `"s"`, `7`, `null`},
@@ -93,6 +94,10 @@ var c07IndexPool = []c07Index{
 	{"ix_age_score", []client.IndexedFieldDescription{{Name: "age", Descending: true}, {Name: "score"}}, false},
 	{"ux_age", []client.IndexedFieldDescription{{Name: "age"}}, true},
 	{"ux_name_age", []client.IndexedFieldDescription{{Name: "name"}, {Name: "age"}}, true},
+	{"ux_name", []client.IndexedFieldDescription{{Name: "name"}}, true},
+	{"ix_born_desc", []client.IndexedFieldDescription{{Name: "born", Descending: true}}, false},
+	{"ix_age_tags", []client.IndexedFieldDescription{{Name: "age"}, {Name: "tags"}}, false},
+	{"ix_active_name", []client.IndexedFieldDescription{{Name: "active"}, {Name: "name", Descending: true}}, false},
 }
 
 func (e5Engine) Gen(prop string, seed int64, tier string) *Plan {
@@ -345,6 +350,19 @@ func (r *c07Run) uniqueConflict(id string, vals map[string]string) (bool, bool) 
 		}
 	}
 	return false, false
+}
+
+// normTime renders a date-time value as its instant in UTC.
+func normTime(v any) any {
+	switch t := v.(type) {
+	case time.Time:
+		return t.UTC().Format(time.RFC3339Nano)
+	case string:
+		if p, err := time.Parse(time.RFC3339Nano, t); err == nil {
+			return p.UTC().Format(time.RFC3339Nano)
+		}
+	}
+	return v
 }
 
 func normNum(v string) string {
@@ -654,7 +672,7 @@ func (r *c07Run) cond() (string, string) {
 		lit2 := f.gql[mod(r.next(), len(f.gql))]
 		lit = "[" + lit + ", " + lit2 + "]"
 	case op == "_like" || op == "_nlike" || op == "_ilike":
-		lit = []string{`"a%"`, `"%b"`, `"%n%"`, `"ann"`, `"%"`, `"A%"`}[mod(r.next(), 6)]
+		lit = []string{`"a%"`, `"%b"`, `"%n%"`, `"ann"`, `"%"`, `"A%"`, `""`, `"%%"`, `"%a b"`}[mod(r.next(), 9)]
 	case f.kind == "strarr":
 		el := []string{`"x"`, `"y"`, `""`, `"zz"`}[mod(r.next(), 4)]
 		lit = fmt.Sprintf("{%s: %s}", []string{"_eq", "_ne"}[mod(r.next(), 2)], el)
@@ -703,9 +721,21 @@ func (r *c07Run) check(i int, seed int) {
 				of = "active"
 			}
 			dir := []string{"ASC", "DESC"}[mod(r.next(), 2)]
-			args += fmt.Sprintf(", order: {%s: %s}", of, dir)
-			orderField = of
-			tag += "/order:" + of
+			if mod(r.next(), 4) == 0 {
+				// two sort keys
+				of2 := []string{"age", "name", "active", "score"}[mod(r.next(), 4)]
+				if of2 == of {
+					of2 = "born"
+				}
+				dir2 := []string{"ASC", "DESC"}[mod(r.next(), 2)]
+				args += fmt.Sprintf(", order: [{%s: %s}, {%s: %s}]", of, dir, of2, dir2)
+				orderField = of + "," + of2
+				tag += "/order2:" + of + "+" + of2
+			} else {
+				args += fmt.Sprintf(", order: {%s: %s}", of, dir)
+				orderField = of
+				tag += "/order:" + of
+			}
 			if mod(r.next(), 2) == 0 {
 				args += fmt.Sprintf(", limit: %d", 1+mod(r.next(), 4))
 				if mod(r.next(), 2) == 0 {
@@ -723,7 +753,11 @@ func (r *c07Run) check(i int, seed int) {
 				args = "showDeleted: false"
 			}
 		}
-		q := fmt.Sprintf("query { User(%s) { _docID name age score active born tags nums meta points } }", args)
+		if mod(r.next(), 8) == 0 {
+			args += ", showDeleted: true"
+			tag += "/showDeleted"
+		}
+		q := fmt.Sprintf("query { User(%s) { _docID _deleted name age score active born tags nums meta points } }", args)
 		r.compare(i, q, "User", orderField, tag)
 		r.parts = nil
 	}
@@ -802,14 +836,48 @@ func (r *c07Run) compare(i int, q, col, orderField, tag string) {
 	ri, rp := rows(di, col), rows(dp, col)
 	if orderField != "" {
 		var ki, kp []string
+		key := func(row map[string]any) string {
+			var ks []string
+			for _, f := range strings.Split(orderField, ",") {
+				v := row[f]
+				if f == "born" {
+					v = normTime(v)
+				}
+				ks = append(ks, normNum(canon(v)))
+			}
+			return strings.Join(ks, "/")
+		}
 		for _, row := range ri {
-			ki = append(ki, normNum(canon(row[orderField])))
+			ki = append(ki, key(row))
 		}
 		for _, row := range rp {
-			kp = append(kp, normNum(canon(row[orderField])))
+			kp = append(kp, key(row))
 		}
 		if strings.Join(ki, ",") != strings.Join(kp, ",") {
-			r.res.violate("C07", "sort-key-sequence-differs", "sort-key-sequence-differs/"+r.attribute(tag), i,
+			cls := "sort-key-sequence-differs/" + r.attribute(tag)
+			if strings.Contains(orderField, ",") {
+				// two sort keys: do the sequences of the first key agree?
+				first := func(ks []string) string {
+					var out []string
+					for _, k := range ks {
+						out = append(out, k[:strings.Index(k+"/", "/")])
+					}
+					return strings.Join(out, ",")
+				}
+				if first(ki) == first(kp) {
+					cls = "sort-key-sequence-differs/second-key-only/" + tag
+				}
+			}
+			if via := r.culpritIndexKind(q, col, func(rs []map[string]any) bool {
+				var kf []string
+				for _, row := range rs {
+					kf = append(kf, key(row))
+				}
+				return strings.Join(kf, ",") == strings.Join(kp, ",")
+			}); via != "" {
+				cls = "sort-key-sequence-differs/" + via + "/" + tag
+			}
+			r.res.violate("C07", "sort-key-sequence-differs", cls, i,
 				"%s (indexes %v): sort keys with indexes %v, without %v", q, sortedKeys(r.active), ki, kp)
 			return
 		}
@@ -827,7 +895,11 @@ func (r *c07Run) compare(i int, q, col, orderField, tag string) {
 		if ex, errs := r.ix.GQL(strings.Replace(q, "query {", "query @explain {", 1)); len(errs) == 0 {
 			r.res.logf("  explain-simple(indexed): %s", canon(ex))
 		}
-		r.res.violate("C07", "result-differs", "result-differs/"+r.attribute(tag), i,
+		cls := "result-differs/" + r.attribute(tag)
+		if via := r.culpritIndexKind(q, col, func(rs []map[string]any) bool { return multiset(rs) == b }); via != "" {
+			cls = "result-differs/" + via + "/" + r.attribute(tag)
+		}
+		r.res.violate("C07", "result-differs", cls, i,
 			"%s (indexes %v): with indexes %s, without %s", q, sortedKeys(r.active), short(a), short(b))
 		return
 	}
@@ -842,6 +914,15 @@ func opClass(tag string) string {
 func multiset(rs []map[string]any) string {
 	var xs []string
 	for _, r := range rs {
+		if b, ok := r["born"]; ok && b != nil {
+			// the same instant may come back with the offset it was written with or in UTC: one value
+			rc := map[string]any{}
+			for k, v := range r {
+				rc[k] = v
+			}
+			rc["born"] = normTime(b)
+			r = rc
+		}
 		xs = append(xs, canon(r))
 	}
 	sort.Strings(xs)
@@ -876,4 +957,44 @@ func writeErrClass(errs []string) string {
 		return "panic"
 	}
 	return "error"
+}
+
+// culpritIndexKind: when the two nodes disagree, find out whether dropping one single index (on a fork of the
+// indexed node) makes them agree, and if that index is of a kind with a recorded finding, name the kind.
+// Used for the class of a violation only.
+func (r *c07Run) culpritIndexKind(q, col string, agrees func([]map[string]any) bool) string {
+	if col != "User" {
+		return ""
+	}
+	for _, ixd := range c07IndexPool {
+		if !r.active[ixd.name] {
+			continue
+		}
+		kind := ""
+		if len(ixd.fields) > 1 {
+			for _, f := range ixd.fields {
+				if fd := c07FieldByName(f.Name); fd != nil && (fd.kind == "strarr" || fd.kind == "intarr") {
+					kind = "array-composite-index"
+				}
+			}
+		}
+		if kind == "" {
+			continue
+		}
+		n, err := startNode(r.ctx, "fork", r.ix.Store.Fork(), NodeOpts{})
+		if err != nil {
+			continue
+		}
+		agree := false
+		if c, err := n.DB.GetCollectionByName(n.reqCtx(), "User"); err == nil && c.DropIndex(n.reqCtx(), ixd.name) == nil {
+			if d, errs := n.GQL(q); len(errs) == 0 && agrees(rows(d, col)) {
+				agree = true
+			}
+		}
+		n.Close()
+		if agree {
+			return kind
+		}
+	}
+	return ""
 }
